@@ -4,7 +4,5 @@ CONSTANTS
   Dips <- Empty
   Scales <- Empty
 CONSTRAINT Progress
-INVARIANT WellPosed
-INVARIANT Recovers
 POSTCONDITION Accepted
 CHECK_DEADLOCK FALSE
